@@ -99,6 +99,8 @@ struct Holder {
     explicit Holder(SF &s) : p(s.get_promise()) {}
 };
 
+static long g_leaks = 0;
+
 static void run_case(const vh::Case &cs) {
     struct UDecl {
         long cp, kind;
@@ -256,6 +258,7 @@ static void run_case(const vh::Case &cs) {
         ctl::finish_case_or_restart(c);
     }
     long leak = __lsan_do_recoverable_leak_check() ? 1 : 0;
+    if (leak) g_leaks++;
     vh::print_obs({10, counted::live.load() - live0, leak});
 }
 
@@ -268,5 +271,6 @@ int main(int argc, char **argv) {
         std::printf("END\n");
         std::fflush(stdout);
     }
+    if (g_leaks) std::_Exit(0);  // already reported per case; skip the at-exit leak report
     return 0;
 }
